@@ -21,6 +21,9 @@ CHECKS = {
  "C06": dict(cat="translation_validation", tech="three-way differential testing (translation validation per program): emitted C compiled with clang/gcc under ASan+UBSan vs tensora's LLVM JIT vs the IR abstract machine, bit-for-bit, on generated kernels and on Hypothesis-generated well-typed IR programs",
    text="Each generated kernel module and each generated IR program is translated by both back ends and executed on the same inputs; structure arrays and the 64-bit patterns of all values must agree with each other and with direct execution of the IR. The emitted C must compile under -std=c11 with the strict -Werror set and the LLVM module must verify. Per-program validation, not a proof about the printers.",
    note="Trusted: clang 14 / gcc 12 and LLVM MCJIT as faithful executors of their input; the abstract machine as the IR's reference semantics (its disagreement with both back ends would show as a split with the machine as odd one out).", ref="DESIGN.md §3 C06"),
+ "C07": dict(cat="exploration", tech="differential property-based testing of the optimiser: optimised vs unoptimised IR (generated kernels and Hypothesis-generated statement trees) executed on the IR abstract machine; equal return value and heap, access-set inclusion",
+   text="Every generated kernel module (pass on vs pass replaced by the identity) and every generated IR statement tree is executed before and after tensora's peephole pass on small environments; results, heap contents and the set of memory accesses are compared. Exploration over a bounded grammar (depth<=4), all 16 documented rules hit.",
+   note="Trusted: the abstract machine as IR semantics; programs whose original traps are discarded (reported).", ref="DESIGN.md §3 C07"),
 }
 def main():
     checks = []
